@@ -79,17 +79,30 @@ func (pm *panicModel) siteReason(s panicSite) (string, bool) {
 		}
 		return n
 	}
+	var last *ssa.Function
 	for f := fn; f != nil; {
 		names = append(names, FuncName(f))
 		if b := base(FuncName(f)); b != FuncName(f) {
 			names = append(names, b)
 		}
-		if f.Parent() != nil {
-			f = f.Parent()
-		} else if c := helperCall(f); c != nil {
-			f = c.Parent()
-		} else {
+		if len(names) > 48 {
 			break
+		}
+		last = f
+		f = enclosingFn(f)
+	}
+	// the chain ended in a helper shared by several callers (a literal inside installRBC, called for the
+	// key generation and for signing): the reason recorded for the code of each caller applies
+	if last != nil && last.Object() != nil && !last.Object().Exported() {
+		if cs := pm.sl.callers[last]; len(cs) >= 2 && len(cs) <= 4 {
+			for _, c := range cs {
+				for f, i := c.Parent(), 0; f != nil && i < 12; f, i = enclosingFn(f), i+1 {
+					names = append(names, FuncName(f))
+					if b := base(FuncName(f)); b != FuncName(f) {
+						names = append(names, b)
+					}
+				}
+			}
 		}
 	}
 	keys := []string{s.canon}
@@ -108,6 +121,55 @@ func (pm *panicModel) siteReason(s panicSite) (string, bool) {
 	return "", false
 }
 
+// siteReasonCtx: a site inside a helper with several callers whose operand is (a function of) the
+// helper's parameters: the frozen reason is looked up once per calling context, for the operand as that
+// caller passes it (`shortDigest(key.digest)` makes `digest[:8]` the site `key.digest[:8]` of the
+// caller); every context must have a reason.
+func (pm *panicModel) siteReasonCtx(s panicSite) (string, bool) {
+	if s.render == nil {
+		return "", false
+	}
+	fn := s.in.Parent()
+	if len(fn.Params) == 0 || helperCall(fn) != nil {
+		return "", false
+	}
+	var cfns []*ssa.Function
+	for f := range pm.closure {
+		cfns = append(cfns, f)
+	}
+	ctxs := contextsWithin(s.in, cfns, 3)
+	if len(ctxs) == 0 {
+		return "", false
+	}
+	reason := ""
+	for _, sc := range ctxs {
+		if len(sc.Calls) == 0 {
+			return "", false
+		}
+		for _, p := range fn.Params {
+			renderSubst[p] = sc.Resolve(p)
+		}
+		renderCanon++
+		canon := s.render()
+		renderCanon--
+		for _, p := range fn.Params {
+			delete(renderSubst, p)
+		}
+		var names []string
+		for _, cs := range sc.Calls {
+			for f, i := cs.Parent(), 0; f != nil && i < 16; f, i = enclosingFn(f), i+1 {
+				names = append(names, FuncName(f))
+			}
+		}
+		r, ok := lookupReasonSite(c10Reasons, names, s.kind, []string{canon})
+		if !ok {
+			return "", false
+		}
+		reason = r
+	}
+	return reason + " (looked up per calling context)", true
+}
+
 func checkC10(c *Ctx) {
 	c.explanation = "Static decision over the five modules: the closure of functions reachable from the network entry points (dispatcher, silent-mode buffer, synchroniser, reliable broadcast, classifiers/handlers of the four backends, TPS.Sign, both Verifiers, the connection handler) — through static calls, closures, method values, the VTA call graph and, transitively, every function that reads a field which network-reachable code writes — is enumerated, and in it every panic-capable construct: index/slice expressions whose bounds check the Go compiler's prove pass could NOT eliminate (the compiler is the oracle for the rest), unchecked type assertions, explicit panics, stores into maps held in struct fields, calls through func/interface fields, wire-sized allocations, integer divisions, process-exit calls, and channel sends on the dispatcher's path. Each is discharged by a dominating length guard on the same value (with length arithmetic through re-slicing, conversions, hex encoding and SHA-256 helpers, canonical and validated-length loops), by a structural check (map/field initialised, assertion matches every value stored), or by one line of the frozen reason table (caller contract, or a premise decided by another rule). Anything else is a violation. Hangs in general, panics inside dependencies beyond the named wrappers and CPU exhaustion are not decided."
 	c.notDecided = "absence of hangs in general; panics inside dependencies (tss-lib, mathlib internals beyond the recover wrapper, encoding/asn1); CPU exhaustion"
@@ -122,6 +184,7 @@ func checkC10(c *Ctx) {
 	ruleC10DiscDecoderContract(c, R2)
 	ruleC10DigestLengths(c, R2)
 	ruleC10ParseBeforeStore(c, R2)
+	ruleC10ResponseCapacity(c, R2)
 	total := 0
 	for _, rel := range []string{ModRoot, ModBLS, ModPS, ModECDSA, ModEDDSA} {
 		pm := buildPanicModel(c, rel)
@@ -153,6 +216,10 @@ func checkC10(c *Ctx) {
 					c.OK(P1, fn, construct, pos, "reason: "+r)
 					continue
 				}
+				if r, ok := pm.siteReasonCtx(s); ok {
+					c.OK(P1, fn, construct, pos, "reason: "+r)
+					continue
+				}
 				_, why := pm.dischargeBounds(s)
 				c.Bad(P1, fn, construct, pos, "the compiler could not prove this "+s.detail+" check and no dominating length guard on the same value exists ("+why+"): a short or malformed message from the network makes the process panic (how reached: "+pm.why[s.in.Parent()]+")")
 			case "assert":
@@ -172,11 +239,9 @@ func checkC10(c *Ctx) {
 					c.OK(P1, fn, construct, pos, "reason: "+r)
 					continue
 				}
-				for _, pr := range panicReasons {
-					if panicFnMatches(s.in.Parent(), pr.fnSuffix) && strings.HasPrefix(s.expr, pr.text) {
-						c.OK(P1, fn, construct, pos, "reason: "+pr.reason)
-						goto next
-					}
+				if r, ok := panicReasonFor(s.in.Parent(), s.expr, pm.m.PkgFuncs(pkgPathOf(s.in.Parent())), 0); ok {
+					c.OK(P1, fn, construct, pos, "reason: "+r)
+					goto next
 				}
 				c.Bad(P1, fn, construct, pos, "an explicit panic is reachable from a network entry point and no reason is recorded why received data cannot trigger it (how reached: "+pm.why[s.in.Parent()]+")")
 			case "nilmap":
@@ -500,6 +565,19 @@ func (pm *panicModel) fieldAssigned(s panicSite) (bool, string) {
 			if !owns {
 				continue
 			}
+			// a variable that is assigned a whole struct value (a by-value parameter or receiver spilled
+			// to a cell, a copy, a result slot) is not a construction site: what it holds was built elsewhere
+			copied := false
+			if a.Referrers() != nil {
+				for _, r := range *a.Referrers() {
+					if stw, ok := r.(*ssa.Store); ok && stw.Addr == ssa.Value(a) {
+						copied = true
+					}
+				}
+			}
+			if copied {
+				continue
+			}
 			if _, set := structLitFieldValue(a, fld); !set {
 				// allowed when an initialiser method assigns it later (Init); otherwise a construction site forgets it
 				initStores := 0
@@ -520,7 +598,47 @@ func (pm *panicModel) fieldAssigned(s panicSite) (bool, string) {
 }
 
 func (pm *panicModel) allocBounded(ms *ssa.MakeSlice) (bool, string) {
-	l := linOf(ms.Len)
+	if ok, by := pm.sizeBounded(ms.Len, FactsAt(ms)); ok {
+		return true, by
+	}
+	// the size is a parameter of a helper with several callers ("read exactly n bytes"): bounded in every
+	// calling context
+	noParamLook++
+	lv := strip(ms.Len)
+	if cv, ok := lv.(*ssa.Convert); ok {
+		lv = strip(cv.X)
+	}
+	noParamLook--
+	p, ok := lv.(*ssa.Parameter)
+	if !ok || p.Parent() != ms.Parent() || helperCall(ms.Parent()) != nil {
+		return false, ""
+	}
+	var cfns []*ssa.Function
+	for f := range pm.closure {
+		cfns = append(cfns, f)
+	}
+	ctxs := contextsWithin(ms, cfns, 3)
+	if len(ctxs) == 0 {
+		return false, ""
+	}
+	for _, sc := range ctxs {
+		if len(sc.Calls) == 0 {
+			return false, ""
+		}
+		v := sc.Resolve(p)
+		if _, isK := constInt(v); isK {
+			continue
+		}
+		if ok, _ := pm.sizeBounded(v, sc.Facts()); !ok {
+			return false, ""
+		}
+	}
+	return true, fmt.Sprintf("bounded in each of the %d calling contexts (constant, or dominated by a size limit there)", len(ctxs))
+}
+
+// sizeBounded: the value v, used as an allocation size where facts hold, is bounded.
+func (pm *panicModel) sizeBounded(v ssa.Value, facts []Fact) (bool, string) {
+	l := linOf(v)
 	allLen := len(l.Terms) > 0
 	for t := range l.Terms {
 		if !strings.HasPrefix(t, "len(") {
@@ -531,31 +649,31 @@ func (pm *panicModel) allocBounded(ms *ssa.MakeSlice) (bool, string) {
 		return true, "sized by the length of data already in memory (" + l.String() + ")"
 	}
 	// 16-bit length prefix
-	if cv, ok := strip(ms.Len).(*ssa.Convert); ok && intWidth(cv.X.Type()) <= 16 {
+	if cv, ok := strip(v).(*ssa.Convert); ok && intWidth(cv.X.Type()) <= 16 {
 		return true, "sized by a 16-bit value (≤ 65535)"
 	}
-	if intWidth(strip(ms.Len).Type()) <= 16 && intWidth(strip(ms.Len).Type()) > 0 {
+	if intWidth(strip(v).Type()) <= 16 && intWidth(strip(v).Type()) > 0 {
 		return true, "sized by a 16-bit value (≤ 65535)"
 	}
-	for _, f := range FactsAt(ms) {
+	for _, f := range facts {
 		if f.Op != token.LEQ && f.Op != token.LSS {
 			continue
 		}
 		if k, ok := constInt(f.Y); ok && k > 0 {
-			a, b := lanesOf(f.X, 0), lanesOf(ms.Len, 0)
+			a, b := lanesOf(f.X, 0), lanesOf(v, 0)
 			same := len(a) > 0 && len(b) > 0
 			for i := 0; i < len(a) && i < len(b) && same; i++ {
 				if a[i].Kind != b[i].Kind || a[i].Pos.String() != b[i].Pos.String() || a[i].Buf != b[i].Buf || a[i].Src != b[i].Src {
 					same = false
 				}
 			}
-			if same || sameValue(f.X, ms.Len) {
+			if same || sameValue(f.X, v) {
 				return true, fmt.Sprintf("dominated by size ≤ %d", k)
 			}
 		}
 	}
 	// field / parameter configured locally (not from the wire)
-	sl := pm.sl.Slice(ms.Len)
+	sl := pm.sl.Slice(v)
 	fromWire := sliceHas(sl, func(v ssa.Value) bool {
 		if u, ok := v.(*ssa.UnOp); ok && u.Op == token.MUL {
 			if ia, ok := u.X.(*ssa.IndexAddr); ok {
